@@ -46,6 +46,56 @@ pub struct PoolOutcome {
     pub aux_counts: Vec<usize>,
 }
 
+/// In-run frame-liveness audit (C06 clause 6): once the countdown of a
+/// broadcast has reached zero the caller may resume and its stack frame may
+/// die, so a worker must not touch the broadcast's shared state any more
+/// until it has received its next task. Evaluated *before* the operation is
+/// executed, so a use-after-free is reported instead of performed.
+#[derive(Default)]
+pub struct FrameLiveness {
+    st: Mutex<FrameSt>,
+}
+
+#[derive(Default)]
+struct FrameSt {
+    zero: Option<(u32, usize)>,
+    closed: [bool; dsim::MAX_THREADS],
+    bcast: u32,
+}
+
+impl dsim::Monitor for FrameLiveness {
+    fn on_event(&self, e: &Event) {
+        let mut st = self.st.lock().unwrap();
+        match e.kind {
+            Ev::User(UserEv::BroadcastBegin { j, .. }) => {
+                st.zero = None;
+                st.closed = [false; dsim::MAX_THREADS];
+                st.bcast = j;
+            }
+            Ev::Atomic { op: AtomOp::Rmw, new: 0, addr, .. } if e.tid != 0 => {
+                st.zero = Some((e.seq, addr));
+                st.closed = [false; dsim::MAX_THREADS];
+            }
+            Ev::Recv { .. } | Ev::RecvErr { .. } | Ev::Exit => {
+                st.closed[e.tid as usize] = true;
+            }
+            _ => {}
+        }
+    }
+
+    fn pre_touch(&self, tid: usize, addr: usize) -> Option<String> {
+        let st = self.st.lock().unwrap();
+        let (zseq, zaddr) = st.zero?;
+        if tid == 0 || st.closed[tid] || addr.abs_diff(zaddr) > 256 {
+            return None;
+        }
+        Some(format!(
+            "[touch_after_release] broadcast {}: worker thread {tid} is about to operate on the broadcast's shared state although its countdown reached zero at seq {zseq} (the caller may have resumed and its frame may be gone)",
+            st.bcast
+        ))
+    }
+}
+
 fn value_of(j: usize, i: usize) -> u64 {
     0xD1_0000_0000 + (j as u64) * 1000 + i as u64
 }
@@ -163,6 +213,7 @@ impl PoolScn {
                 ..FaultPlan::default()
             },
             name: "pool",
+            monitor: Some(Arc::new(FrameLiveness::default())),
             ..RunConfig::default()
         }
     }
@@ -573,8 +624,8 @@ pub fn check_c07(scn: &PoolScn, r: &RunResult, _out: &PoolOutcome) -> Vec<Violat
             "abort",
             format!("process::abort reached on sim thread {tid}"),
         )),
-        Some(Failure::Invariant { message }) => {
-            v.push(Violation::new("invariant", message.clone()))
+        Some(Failure::Invariant { .. }) => {
+            // In-run monitors (frame liveness) belong to C06's clauses.
         }
         Some(_) | None => {}
     }
